@@ -84,7 +84,22 @@ def run(total, ops):
     pb.TqdmManager, pb.get_tqdm = FakeManager, get_tqdm
     try:
         comms.clear_progress_bar_complete()          # what __enter__ does before it starts the thread
-        handler._progress_bar_handler()
+        err = []
+
+        def body():
+            try:
+                handler._progress_bar_handler()
+            except BaseException as e:      # noqa
+                err.append(e)
+        th = threading.Thread(target=body, daemon=True)
+        th.start()
+        th.join(15.0)
+        if th.is_alive():
+            comms.signal_progress_bar_shutdown()
+            th.join(2.0)
+            raise RuntimeError('the handler did not come to the end of the script')
+        if err:
+            raise err[0]
     finally:
         pb.TqdmManager, pb.get_tqdm = saved
     outs.append(show(True))
